@@ -54,6 +54,10 @@ def parseAct : List String → Option Act
   | ["bclose", sid] => do pure (.bclose (← parseNat sid))
   | ["hexit", sid] => do pure (.hexit (← parseNat sid))
   | ["crst", sid] => do pure (.crst (← parseNat sid))
+  -- racing variants (a detached goroutine reads the body while the stream is torn down): the
+  -- interleaving is the scheduler's; the monitor judges the same observations
+  | ["hexitr", sid, _] => do pure (.hexit (← parseNat sid))
+  | ["crstr", sid, _] => do pure (.crst (← parseNat sid))
   | ["shutdown", sid] => do pure (.shutdown (← parseNat sid))
   | ["quiesce"] => some .quiesce
   | _ => none
